@@ -7,6 +7,7 @@ import (
 	"fmt"
 	"regexp"
 	"sort"
+	"strings"
 
 	"go.sia.tech/core/consensus"
 	"go.sia.tech/core/types"
@@ -37,6 +38,36 @@ func suppBytes(bs consensus.V1BlockSupplement) []byte {
 	bs.EncodeTo(e)
 	e.Flush()
 	return buf.Bytes()
+}
+
+// suppOrder names the supplement's elements in the order they are held.
+func suppOrder(bs consensus.V1BlockSupplement) string {
+	var sb strings.Builder
+	for i, ts := range bs.Transactions {
+		fmt.Fprintf(&sb, "t%d[", i)
+		for _, e := range ts.SiacoinInputs {
+			sb.WriteString(short(types.Hash256(e.ID)) + " ")
+		}
+		sb.WriteString("|")
+		for _, e := range ts.SiafundInputs {
+			sb.WriteString(short(types.Hash256(e.ID)) + " ")
+		}
+		sb.WriteString("|")
+		for _, e := range ts.RevisedFileContracts {
+			sb.WriteString(short(types.Hash256(e.ID)) + " ")
+		}
+		sb.WriteString("|")
+		for _, e := range ts.StorageProofs {
+			sb.WriteString(short(types.Hash256(e.FileContract.ID)) + " ")
+		}
+		sb.WriteString("]")
+	}
+	sb.WriteString("x[")
+	for _, e := range bs.ExpiringFileContracts {
+		sb.WriteString(short(types.Hash256(e.ID)) + " ")
+	}
+	sb.WriteString("]")
+	return sb.String()
 }
 
 type validateSnap struct {
@@ -83,7 +114,21 @@ func (w *World) preValidate(n *Node, s consensus.State, b types.Block, bs consen
 		return snap
 	}
 	snap.full = true
+	// writing a value out leaves it as it was: the store hands over the
+	// supplement in its own order, and that order is the caller's
+	order := suppOrder(bs)
 	snap.state, snap.block, snap.supp = encodeState(s), fullBlockBytes(b), suppBytes(bs)
+	if after := suppOrder(bs); after != order {
+		w.violate("C09", "encode-mutates-value", fmt.Sprintf("encoding the supplement for the child of height %d changed it: elements were %s, are %s", int64(s.Index.Height), order, after))
+	}
+	if len(bs.ExpiringFileContracts) > 1 {
+		for i := 1; i < len(bs.ExpiringFileContracts); i++ {
+			if bs.ExpiringFileContracts[i].StateElement.LeafIndex < bs.ExpiringFileContracts[i-1].StateElement.LeafIndex {
+				w.stats.Inc("probe.c09.expiring-not-in-leaf-order")
+				break
+			}
+		}
+	}
 	return snap
 }
 
@@ -144,7 +189,26 @@ func (w *World) postValidate(n *Node, snap *validateSnap, s consensus.State, b t
 		}
 	} else if bytes.Equal(fullBlockBytes(db), snap.block) {
 		var err3 error
-		dbs := copySupp(bs)
+		// (the supplement too as a node that stored it would read it back)
+		var dbs consensus.V1BlockSupplement
+		dd := types.NewBufDecoder(snap.supp)
+		dbs.DecodeFrom(dd)
+		if dd.Err() != nil {
+			w.violate("C11", "supplement-roundtrip-decode", fmt.Sprintf("%s: the supplement does not decode from its own encoding: %v", ctx, dd.Err()))
+			return
+		}
+		for i := range bs.Transactions {
+			for j, sp := range bs.Transactions[i].StorageProofs {
+				if i >= len(dbs.Transactions) || j >= len(dbs.Transactions[i].StorageProofs) || dbs.Transactions[i].StorageProofs[j].WindowID != sp.WindowID {
+					w.violate(w.propAmong("C09", "C11"), "supplement-roundtrip-differs", fmt.Sprintf("%s: the storage proof supplement of contract %v (filesize %d) names window block %v; read back from its own encoding it does not", ctx, sp.FileContract.ID, sp.FileContract.FileContract.Filesize, sp.WindowID))
+					return
+				}
+			}
+		}
+		if suppOrder(dbs) != suppOrder(bs) {
+			w.violate(w.propAmong("C09", "C11"), "supplement-roundtrip-differs", fmt.Sprintf("%s: the supplement read back from its own encoding holds %s, the original %s", ctx, suppOrder(dbs), suppOrder(bs)))
+			return
+		}
 		if p := guard(func() { err3 = consensus.ValidateBlock(s, db, dbs) }); p != "" {
 			w.violate("C10", "validate-panic", p)
 			return
